@@ -1,9 +1,27 @@
 from common import ENUMX_ASSUME
 
+
+def splice_blsmemo(src, out):
+    """Route the one call Herumi.Verify makes into the BLS library (bls.Sign.VerifyByte, pure and deterministic) through the
+    memoising wrapper of harness/tbls/zz_verif_blsmemo.go (key = complete argument bytes). Nothing of charon's own code is
+    bypassed; the memo only spares re-running the pairing for byte-identical (public key, message, signature)."""
+    import os
+    s = open(src).read()
+    a = "signature.VerifyByte(&pubKey, data)"
+    if s.count(a) != 1:
+        return None
+    s = s.replace(a, "verifVerifyByte(&signature, &pubKey, data, compressedPublicKey, rawSignature)")
+    os.makedirs(os.path.dirname(out), exist_ok=True)
+    open(out, "w").write(s)
+    return out
+
+
 CHECK = dict(
     pkgs=["core"],
-    files={"core": ["zz_verif_c01_test.go"]},
+    files={"core": ["zz_verif_c01_test.go", "zz_verif_c01b_test.go"]},
     libs=["enumx", "fakenet"],
+    splice={"tbls/herumi.go": splice_blsmemo},
+    extra_files={"tbls": ["zz_verif_blsmemo.go"]},
     run="TestVerifC01",
     level="exploration",
     engine="schedx-style deviation bounding over fakenet",
